@@ -1398,9 +1398,9 @@ theorem no_cross_talk_core (fwd excl ret : Bool) (T n : Nat) (pre post : List Op
     (owned_request s1 c v hi1.bounds) (logOwned_request s1 c v hi1.bounds)
 
 theorem classify_answered (cv : ClientVerb) (h1 : cv ≠ .softStop) (h2 : ∀ k, cv ≠ .load k)
-    (h3 : ∀ k, cv ≠ .reload k) (h4 : cv.crashesMain = false) :
+    (h3 : ∀ k, cv ≠ .reload k) :
     (cv.classify true).hasDeadline = true ∨ (cv.classify true).immediate.isSome = true := by
-  cases cv <;> simp_all [ClientVerb.classify, ClientVerb.crashesMain, Verb.hasDeadline, Verb.immediate]
+  cases cv <;> simp_all [ClientVerb.classify, Verb.hasDeadline, Verb.immediate]
 
 -- ------------------------------------------------------- load_state batching, distinct ids ----
 
@@ -1737,8 +1737,8 @@ theorem reqClient_run (a b c : Bool) (T n : Nat) (ops : List Op) : ReqClient (ru
   | nil => intro h _ hr; exact hr
   | cons o os ih => intro h hb hr; rw [run_cons]; exact ih _ (bounds_step h o hb) (reqClient_step h o hb hr)
 
-theorem classify_answers (cv : ClientVerb) (h : cv.crashesMain = false) : (cv.classify true).answers = true := by
-  cases cv <;> simp_all [ClientVerb.classify, ClientVerb.crashesMain, Verb.answers, Verb.gathers, Verb.immediate]
+theorem classify_answers (cv : ClientVerb) : (cv.classify true).answers = true := by
+  cases cv <;> simp [ClientVerb.classify, Verb.answers, Verb.gathers, Verb.immediate]
 
 /-- every pending task of the request is releasable: past its deadline, or gathered
     without a deadline and finished -/
